@@ -20,12 +20,21 @@ from . import common
 # textually identical functions at the same line of two files are EQUAL code objects and (correctly, by the
 # WeakKeyDictionary semantics of the cache) share one entry.  The pools avoid equal-but-distinct code objects.
 SRC = '''
-CALLS = []
+class Counter(object):
+    def __init__(self):
+        self.n = 0
+
+    def bump(self):
+        t = {tag}
+        self.n = self.n + 1
+
+
+COUNTER = Counter()
 
 
 def record(**kw):
     t = {tag}
-    CALLS.append(1)
+    COUNTER.bump()
 
 
 def helper(y):
@@ -59,12 +68,12 @@ def plain(x, d=7):
 
 def make_dir(slo):
     def looper(x):
-        c0 = len(CALLS)
+        c0 = COUNTER.n
         n = 0
         while n < 3:
             slo(parallel_iterations=4)
             n = n + 1
-        return ({tag}, n, x, slo is None, len(CALLS) - c0)
+        return ({tag}, n, x, slo is None, COUNTER.n - c0)
     return looper
 '''
 
